@@ -466,7 +466,7 @@ def extend(ctx, args, st):
     return g()
 
 
-@model(r'^(?:std|core)::iter::(once|empty)::<')
+@model(r'^(?:(?:std|core)::iter::)?(once|empty)::<')
 def iter_once_empty(ctx, args, st):
     if '::once::<' in ctx.callee: return ret(st, Py('iter', ('once', args[0])))
     return ret(st, Py('iter', ('empty',)))
